@@ -79,7 +79,7 @@ PROPERTIES = {
               "sampling non-negativity and time-reversal weight bookkeeping for symbolic Nk and segment lengths (see evidence for what is bounded).",
         note="np.indices(...).transpose(1,2,3,0).reshape(-1,3) is an assumed contract (C-ordered list of all index triples); floats as reals; "
              "np.round as round-half-even; in-house engines trusted (canaries on every run)",
-        modules=["contracts.c15"],
+        modules=["contracts.c15", "contracts.c15_path"],
         level="proof",
         trusted_base=BASE_TRUST + ["in-house exact-algebra normaliser (engine A)", "z3 5.1 (NRA/LIA)"],
         assumptions=["np.indices contract (index rows 0 <= m_c < n_c, each exactly once)", "floats as exact reals"],
